@@ -137,6 +137,14 @@ class PPWorld:
         self.snap[tid] = (listing, cur)
 
 
+def _nm(cfg, i):
+    """destination base name of download i; `long_names`: names at the file-system limit that differ
+    only after their 246th character (temporary names are the first 246 characters + a random suffix)"""
+    if cfg.get('long_names'):
+        return 'n' * 246 + f'-{i:04d}.bin'
+    return f'dst{i}'
+
+
 def run_pp(cfg, prefix, scratch):
     """cfg: workers, downloads=[dict(size,t,c,pre)], script, inject, faults"""
     harness.install()
@@ -202,7 +210,7 @@ def run_pp(cfg, prefix, scratch):
                 key = f'k{i}'
                 data = payload(dl['size'], cfg.get('seed', 0), i)
                 w.s3.put(BUCKET, key, data)
-                path = os.path.join(scratch.path, f'dst{i}')
+                path = os.path.join(scratch.path, _nm(cfg, i))
                 if dl.get('pre') is not None:
                     with open(path, 'wb') as fh:
                         fh.write(dl['pre'].encode())
@@ -253,7 +261,7 @@ def run_pp(cfg, prefix, scratch):
                 if getattr(w, 'fs_violation', None):
                     return
                 for i, dl in enumerate(cfg['downloads']):
-                    path = os.path.join(scratch.path, f'dst{i}')
+                    path = os.path.join(scratch.path, _nm(cfg, i))
                     try:
                         with open(path, 'rb') as fh:
                             cur = fh.read()
@@ -309,7 +317,7 @@ def judge(w):
                 if n_comp < len(put):
                     out.append(('C19:future-done-before-all-jobs',
                                 f'download {i}: future.done() was True at step {e[0]} with {n_comp}/{len(put)} jobs accounted for'))
-                tmp = [x for x in e[3]['listing'] if x.startswith(f'dst{i}.')]
+                tmp = [] if cfg.get('long_names') else [x for x in e[3]['listing'] if x.startswith(f'dst{i}.')]
                 if tmp:
                     out.append(('C19:future-done-with-temp-file', f'download {i}: future.done() was True at step {e[0]} while {tmp} existed'))
                 break
@@ -338,7 +346,8 @@ def judge(w):
             listing, cur = w.snap.get(tid, (None, None))
             exc_at_done = None
             oc = w.outcomes.get(i)
-            temp = [x for x in (listing or []) if x.startswith(f'dst{i}.')]
+            # (with names sharing their first 246 characters a temporary file cannot be told apart by name)
+            temp = [] if cfg.get('long_names') else [x for x in (listing or []) if x.startswith(f'dst{i}.')]
             if temp:
                 out.append(('C19:temp-file-at-done', f'download {i}: temporary file {temp} exists when done is set'))
             if oc and oc[0] == 'ok':
@@ -347,7 +356,7 @@ def judge(w):
             else:
                 pre = cfg['downloads'][i].get('pre')
                 pre_b = pre.encode() if pre is not None else None
-                renamed = any(e[2] == 'fs.renamed' and e[3].get('to') == f'dst{i}' for e in log)
+                renamed = any(e[2] == 'fs.renamed' and e[3].get('to') == _nm(cfg, i) for e in log)
                 if cur != pre_b and not (renamed and cur == w.expected[i]):
                     out.append(('C06:ppool:destination-changed-after-failure', f'download {i} failed ({oc}) but destination holds {cur!r} (previous {pre_b!r})'))
                     out.append(('C19:destination-changed-on-failure', f'download {i} failed ({oc}) but destination holds {cur!r} (previous {pre_b!r})'))
@@ -368,7 +377,8 @@ def judge(w):
     if getattr(w, 'fs_violation', None):
         out.append(('C06:ppool:partial-content-visible', w.fs_violation))
     # nothing left behind at the end
-    left = [x for x in w.listing if '.' in x]
+    finals = {_nm(cfg, i) for i in range(len(cfg['downloads']))}
+    left = [x for x in w.listing if x not in finals and ('.' in x or cfg.get('long_names'))]
     if left:
         out.append(('C19:temp-file-left', f'{left} after all downloads finished'))
         out.append(('C06:ppool:temp-file-left', f'{left} after all downloads finished'))
@@ -448,6 +458,10 @@ def jobs(tier):
                     'bound': {'inject': 1, 'env': 1, 'sched': 0 if q else 1}})
         out.append({'name': f'with-kbd {name}', 'cfg': dict(base, script='with_kbd'), 'bound': PL})
         out.append({'name': f'ctrlc-at-result {name}', 'cfg': dict(base, inject=[{'kind': 'ctrlc'}]), 'bound': CA})
+    # destination names that share their first 246 characters
+    for workers, dls in ((2, [dict(size=3), dict(size=3)]), (2, [dict(size=5), dict(size=3)])):
+        base = dict(workers=workers, downloads=dls, t=4, c=2, long_names=True)
+        out.append({'name': f'long names w={workers} sizes={[d["size"] for d in dls]}', 'cfg': dict(base), 'bound': {'sched': 2}})
     # future.done() polled at every point: plain, x one fault, x cancel
     for workers, dls in ((1, [dict(size=5)]), (2, [dict(size=7)]), (2, [dict(size=5), dict(size=3)])):
         base = dict(workers=workers, downloads=dls, t=4, c=2)
